@@ -84,13 +84,15 @@ def gen(rng, i):
     connected = set(clients + players)
     for _ in range(rng.choice([12, 16, 20])):
         ops = {}
-        k = rng.choice([1, 1, 2, 3])
+        k = rng.choice([1, 1, 1, 2, 2, 3])
         for s in rng.sample(clients, min(k, len(clients))):
             if s not in connected:
                 ops[str(s)] = [{'k': 'connect', 'uid': 0}, {'k': 'hello'}]
                 connected.add(s)
                 continue
-            lst = [client_op(s) for _j in range(rng.choice([1, 1, 2, 3]))]
+            # (held messages are invisible until released, so TLC has to try every interleaving of concurrent writers:
+            # keep concurrent bursts short)
+            lst = [client_op(s) for _j in range(rng.choice([1, 1, 2, 3]) if k == 1 else (rng.choice([1, 1, 2]) if k == 2 else 1))]
             out = []
             for o in lst:
                 out.append(o)
